@@ -10,6 +10,8 @@ import Qfx.Lemmas.CodecXml
 import Qfx.Lemmas.CodecDictSegs
 import Qfx.Lemmas.CodecDictStack
 import Qfx.Lemmas.CodecDictNest
+import Qfx.Lemmas.CodecAnyDict
+import Qfx.Lemmas.CodecTenWitness
 import Qfx.Lemmas.CodecDictExample
 open Qfx Qfx.Spec
 
@@ -106,12 +108,31 @@ theorem C11_finish_checks_length (fields : List TagValue) (c : PCore) (r : List 
   · cases h
   · cases h
 
+/-- running out of fields succeeds only through the final length check (in `parseGroup`, when the field parsed last is CheckSum) -/
+theorem outOfFields_ends (fx : Fixes) (mode : Mode) (fields : List TagValue) (idx : Nat) (c : PCore) (r : List TagValue × PCore)
+    (h : outOfFields fx mode fields idx c = .ok r) : ∃ fs c0, finishParse fs c0 = .ok r := by
+  unfold outOfFields at h
+  split at h
+  · cases mode with
+    | main => cases h
+    | grp dm t g =>
+      simp only [] at h
+      split at h
+      · split at h
+        · split at h
+          · exact ⟨_, _, h⟩
+          · cases h
+        · cases h
+      · cases h
+      · cases h
+  · cases h
+
 /-- every successful run of the parse loop (main loop and `parseGroup`, any dictionaries) ends in the final length check -/
 theorem C11_loop_ends_in_length_check (fx : Fixes) (d : Dicts) (mode : Mode) (fields : List TagValue) (idx : Nat) (c : PCore)
     (r : List TagValue × PCore) (h : parseLoop fx d mode fields idx c = .ok r) :
     ∃ fs c0, finishParse fs c0 = .ok r := by
   fun_induction parseLoop fx d mode fields idx c
-  all_goals (first | (cases h; done) | (exact ⟨_, _, h⟩) | (rename_i ih; exact ih h) | (rename_i ih _; exact ih h))
+  all_goals (first | (cases h; done) | (exact ⟨_, _, h⟩) | (exact outOfFields_ends _ _ _ _ _ _ h) | (rename_i ih; exact ih h) | (rename_i ih _; exact ih h))
 
 /-- "… or whose BodyLength disagrees with its content, is rejected with an error": whenever parsing succeeds, the
     BodyLength read back from the parsed header equals the summed length of all fields except 8, 9, 10 — unless the
@@ -201,6 +222,39 @@ theorem C11_faithful_dict_nogroups (fx : Fixes) (d : Dicts) (t8 t9 t35 : TagValu
     intro s; cases s <;> rfl
   rw [hsec]
   exact getBytes_view _ _ _ j tv hfind hj
+
+/-- FIDELITY UNDER ANY DICTIONARIES WHATSOEVER, EVERY WELL-FORMED WIRE MESSAGE (fixed code; the corrected `C11_faithful_full`).
+    `d` is arbitrary — no dictionary, an application dictionary, transport + application dictionaries, repeating groups of any depth,
+    adjacent groups, groups followed by header or trailer fields, user-defined header/trailer tags, fields unknown to the dictionary,
+    duplicated tags, a MsgType the dictionary does not know, even a dictionary that lists CheckSum inside a group.  For every wire message
+    `8, 9, 35, pre…, 10` (`WireMsg`: tag texts that `atoi` reads, SOH-free values, no further field whose NUMERIC tag is 9 / 10 / 212,
+    BodyLength = Σ field lengths) the parse succeeds, `Message.fields` is exactly the wire's field list in order and `Bytes()` returns
+    the wire.  (A loop invariant that does not depend on what the dictionaries make of the fields: `wire_step`, `wire_loop` in
+    Lemmas/CodecAnyDict.lean.) -/
+theorem C11_faithful_anydict (d : Dicts) (t8 t9 t35 : TagValue) (pre : List TagValue) (t10 : TagValue)
+    (hw : WireMsg t8 t9 t35 pre t10)
+    (hbl : atoi t9.value = .ok ((fieldsLength (t8 :: t9 :: t35 :: (pre ++ [t10])) : Nat) : Int)) :
+    ∃ m, parseMessage Fixes.cur d (wireOf (t8 :: t9 :: t35 :: (pre ++ [t10]))) = .ok m ∧
+      m.fields = t8 :: t9 :: t35 :: (pre ++ [t10]) ∧
+      m.bytes Fixes.cur = .ok (wireOf (t8 :: t9 :: t35 :: (pre ++ [t10])), m) := by
+  obtain ⟨c', h⟩ := parse_wire_anydict (d := d) t8 t9 t35 pre t10 hw hbl
+  exact ⟨_, h, rfl, rfl⟩
+
+/-- WHAT "THE SECTION ITS TAG BELONGS TO" CANNOT PROMISE UNDER AN ARBITRARY DICTIONARY: under the dictionary `tenD` — message type D with
+    a repeating group 453 whose members are 448 and CheckSum (10) — the well-formed message `8=F 9=17 35=D 453=1 448=a 10=000` parses
+    with all its fields, but `parseGroup` takes `10=` for a member of the group: the body's field for 453 covers `453=1 448=a 10=000` and
+    the TRAILER HAS NO CheckSum.  (`parseGroup` runs out of fields, adds the group to the body and returns; `doParsing` ends its loop
+    because the field parsed last is CheckSum; before the fix of D2 the same input indexed past the field array.)  This path was found
+    by the codec family replaying this witness on the real parser (`junk.checksum-member`, dictionary `@TEN` loaded by
+    `datadictionary.Parse`): the model used to answer "message ends without CheckSum" there and was corrected (`outOfFields`). -/
+theorem C11_checksum_member_swallowed :
+    ∃ (d : Dicts) (t8 t9 t35 : TagValue) (pre : List TagValue) (t10 : TagValue) (m : Message),
+      WireMsg t8 t9 t35 pre t10 ∧ atoi t9.value = .ok ((fieldsLength (t8 :: t9 :: t35 :: (pre ++ [t10])) : Nat) : Int) ∧
+      parseMessage Fixes.cur d (wireOf (t8 :: t9 :: t35 :: (pre ++ [t10]))) = .ok m ∧
+      m.fields = t8 :: t9 :: t35 :: (pre ++ [t10]) ∧ alFind m.trailer.lookup 10 = none ∧
+      alFind m.body.lookup 453 = some (.view 3 3) := by
+  obtain ⟨m, h1, h2, h3, h4⟩ := ten_swallowed
+  exact ⟨tenD, w8, w9, w35, [w453, w448], w10, m, ten_wireMsg, ten_bodyLength, h1, h2, h3, h4⟩
 
 /-- WITH DICTIONARIES, MESSAGES WITH ANY NUMBER OF REPEATING GROUPS (fixed code): the wire
     `8, 9, 35, (plain…, G=<n>, <members>, z)…, plain…, 10` — every run `Seg` = plain fields, the count field of a group `G` of the
@@ -390,7 +444,7 @@ def C11_retrievable_full : Prop :=
 theorem C11_orig_no_checksum_faults (fields : List TagValue) (c : PCore) (d : Dicts) :
     parseLoop Fixes.orig d .main fields fields.length c = .fault "index out of range (fields[fieldIndex])" ∧
     parseLoop Fixes.cur d .main fields fields.length c = .err "message ends without CheckSum" := by
-  constructor <;> (unfold parseLoop; simp [Fixes.orig, Fixes.cur])
+  constructor <;> (unfold parseLoop; simp [Fixes.orig, Fixes.cur, outOfFields])
 
 /-- D3 on the unchanged code: an XMLDataLen beyond the buffer is a slice panic (`Fixes.orig`), a parse error now -/
 theorem C11_orig_xml_len_faults (b : Bytes) (e : Nat) (n : Int) (he : indexByte b cEq = some e) (hn : (e : Int) + n + 2 > b.length) :
